@@ -65,6 +65,11 @@ func CoreCorpus(g *gen.Gen, n int) []Item {
 	for ci, cs := range g.Catalogue(1 + n/2500) {
 		items = append(items, mkItem(cs, ci))
 	}
+	if n >= 2000 {
+		for ci, cs := range g.KeywordCatalogue() {
+			items = append(items, mkItem(cs, ci))
+		}
+	}
 	i := 0
 	for len(items) < n || i < n/2 {
 		v := gen.Verbs[i%len(gen.Verbs)]
